@@ -310,13 +310,13 @@ yprp_iffeatures(struct lys_ypr_ctx *pctx, struct lysp_qname *iffs, struct lysp_e
         ypr_close_parent(pctx, flag);
         extflag = 0;
 
-        ly_print_(pctx->out, "%*s<if-feature name=\"%s",  INDENT, iffs[u].str);
+        ypr_open(pctx, "if-feature", "name", iffs[u].str, extflag);
 
         /* extensions */
         LEVEL++;
         yprp_extension_instances(pctx, LY_STMT_IF_FEATURE, u, exts, &extflag);
         LEVEL--;
-        ly_print_(pctx->out, "\"/>\n");
+        ypr_close(pctx, "if-feature", extflag);
     }
 }
 
